@@ -151,6 +151,15 @@ Definition run_engine (cmd : Z) (args : list sx) : sx :=
       | EErrValue => ok (L [A 1])
       | EErrIndex => ok (L [A 2])
       end
+  | 111, [td; A opt; ns] =>
+      do td' <- un_tdata td; do ns' <- un_list un_note ns;
+      match states td' with
+      | EOk sts =>
+          let d := hd {| s_beat := 0; s_val := 0; s_tag := 0; s_time := 0; s_bpm := 1; s_warp := false |}%Q sts in
+          ok (L [A 0; sx_list (fun p => L [sx_Q (fst p); sx_note (snd p)]) (time_notes opt sts d ns')])
+      | EErrValue => ok (L [A 1])
+      | EErrIndex => ok (L [A 2])
+      end
   | _, _ => bad_request
   end.
 
